@@ -32,6 +32,7 @@ RULE = ('collections: every node of the history tree over the alphabet {add o_k,
         'with wrong-typed and equally named objects; dictionaries: every ordering of every generated 1..4-entry '
         'dictionary; stages: all 16x16 pairs, all sequences of length <= 2 (3), random big/negative ints; '
         'DatasetCollection: random add/remove/get histories with duplicate names and wrong types; '
+        'history probes (repeat / interleave / mutate-then-observe vs fresh twin / two instances / arguments are inputs) on all classes; '
         'configuration: every ordered pair of edits from the mutator list on two instances. A case is '
         'non-trivial when it performs at least one operation; distinct by its operation list')
 TRUSTED = [
